@@ -3,6 +3,8 @@ package gosym
 import (
 	"fmt"
 	"os"
+	"runtime"
+	"runtime/debug"
 	"go/constant"
 	"go/token"
 	"go/types"
@@ -415,6 +417,14 @@ func (it *Interp) callFunction(fn *ssa.Function, args []Value, bindings []Value,
 func (it *Interp) runFrame(fr *Frame) (ret Value) {
 	defer func() {
 		if r := recover(); r != nil {
+			if re, ok := r.(runtime.Error); ok {
+				// a bug of the executor itself: never a verdict, report as unsupported with the Go stack
+				st := string(debug.Stack())
+				if len(st) > 3000 {
+					st = st[:3000]
+				}
+				r = &Unsupported{Msg: "internal executor error: " + re.Error() + "\n" + st}
+			}
 			gp, ok := r.(*GoPanic)
 			if !ok {
 				if u, ok := r.(*Unsupported); ok && len(u.Stack) < 12 {
@@ -423,6 +433,9 @@ func (it *Interp) runFrame(fr *Frame) (ret Value) {
 				panic(r)
 			}
 			// Go panic: run deferred calls
+			if gp.Where == "" {
+				gp.Where = fmt.Sprintf("%s (%s)", fr.fn, it.P.Fset.Position(fr.pos))
+			}
 			fr.panicking = gp
 			it.runDefers(fr)
 			if fr.panicking != nil {
